@@ -588,7 +588,8 @@ impl Poly {
         let mut worst = 0.0f64;
         let mut max_err = 0.0f64;
         let mut prev_tau: Option<f64> = None;
-        let tol_val = 64.0 * T::EPS * pmax.max(1e-300) * if T::IS32 { 1.0 } else { 4.0 };
+        // f32: measured worst 2.9 eps32*max|P| over 1.6e5 runs -> 12; f64: measured 82 eps64 (accumulated position) -> 256
+        let tol_val = T::EPS * pmax.max(1e-300) * if T::IS32 { 12.0 } else { 256.0 };
         for j in 0..inst.len() {
             let tau = inst[j] - 1.0;
             if tau < 4.0 || tau > n_in as f64 - 6.0 {
@@ -657,7 +658,7 @@ impl Poly {
                         Deg::Linear => a * w * w / 8.0,
                         Deg::Nearest => a * w,
                     } * 1.001
-                        + 64.0 * T::EPS * a * 4.0
+                        + T::EPS * a * if T::IS32 { 16.0 } else { 256.0 }
                         + 8.0 * f64::EPSILON * a * (w * n_in as f64 + 16.0); // phase rounding of generator and reference
                     if err / bound > worst {
                         worst = err / bound;
@@ -688,7 +689,7 @@ impl Poly {
             _ => "sinusoid_cases",
         }, 1.0);
         if mode != 7 {
-            st.max(&format!("worst_error_over_bound.{}", T::NAME), worst);
+            st.max(&format!("worst_error_over_bound.{}.{}", if mode <= 6 { "polynomial" } else { "sinusoid" }, T::NAME), worst);
         }
         cr.class = if checked > 0 { Some(format!("{}|{}|{}|{}", T::NAME, cfg.class(), mode.min(8), pdeg)) } else { None };
         cr
